@@ -343,6 +343,7 @@ func (c *fn) pointee(e ast.Expr) cx {
 	if id, ok := e.(*ast.Ident); ok {
 		if o := c.objOf(id); c.isLocal(o) {
 			v := c.fresh(c.nameOf(o) + "_v")
+			c.regLocal(v, c.g.typ(resolve(o.Type(), c.sub).(*types.Pointer).Elem(), c.sub))
 			return cx{s: v, binds: []bnd{{v: v, term: "(ptr_val " + c.nameOf(o) + ")", obj: o}}}
 		}
 	}
@@ -418,6 +419,7 @@ func (c *fn) chain(op token.Token, es []ast.Expr) cx {
 	if o, isEq, ok := c.nilTest(es[0]); ok && isEq == (op == token.LOR) {
 		if _, has := c.views[o]; !has {
 			v := c.fresh(c.nameOf(o) + "_v")
+			c.regLocal(v, c.g.typ(resolve(o.Type(), c.sub).(*types.Pointer).Elem(), c.sub))
 			saved := c.saveViews()
 			c.views[o] = v
 			rest := c.chain(op, es[1:])
